@@ -43,8 +43,10 @@ package model
 //@   requires packetsNonNil(m)
 //@   ensures len(m.SyntaxErrors) >= old(len(m.SyntaxErrors)) && len(m.Packets) == old(len(m.Packets)) && forall(q, 0, len(m.Packets), m.Packets[q] == old(m.Packets[q]))
 //@   ensures [C12:D6-all-resolved] len(m.SyntaxErrors) == old(len(m.SyntaxErrors)) ==> forall(p, 0, len(m.Packets), forall(i, 0, len(m.Packets[p].Fields), resolved(m, m.Packets[p].Fields[i])))
+//@   ensures [C12:D6-all-inline-resolved] len(m.SyntaxErrors) == old(len(m.SyntaxErrors)) ==> forall(p, 0, len(m.Packets), forall(i, 0, len(m.Packets[p].Fields), inlineResolved(m, m.Packets[p].Fields[i])))
 //@   loop 0 invariant m.PacketsMap == entry(m.PacketsMap) && len(m.Packets) == entry(len(m.Packets)) && forall(q, 0, len(m.Packets), m.Packets[q] == entry(m.Packets[q]))
 //@   loop 0 invariant len(m.SyntaxErrors) >= old(len(m.SyntaxErrors)) && (len(m.SyntaxErrors) == old(len(m.SyntaxErrors)) ==> forall(p, 0, rangeindex + 1, forall(i, 0, len(m.Packets[p].Fields), resolved(m, m.Packets[p].Fields[i]))))
+//@   loop 0 invariant len(m.SyntaxErrors) == old(len(m.SyntaxErrors)) ==> forall(p, 0, rangeindex + 1, forall(i, 0, len(m.Packets[p].Fields), inlineResolved(m, m.Packets[p].Fields[i])))
 //@   loop 1 invariant m.PacketsMap == entry(m.PacketsMap) && len(m.Packets) == entry(len(m.Packets)) && forall(q, 0, len(m.Packets), m.Packets[q] == entry(m.Packets[q]))
 //@   loop 1 invariant len(m.SyntaxErrors) >= entry(len(m.SyntaxErrors))
 //@   loop 1 invariant cycleClosed(m, state)
@@ -90,12 +92,19 @@ package model
 
 //@ pred resolved(m *BinaryModel, f *Field) := (typeis(f.Attr, *ObjectFieldAttribute) ==> unbox(f.Attr, *ObjectFieldAttribute).RefPacket != nil) && (typeis(f.Attr, *MatchFieldAttribute) ==> forall(k, 0, len(unbox(f.Attr, *MatchFieldAttribute).MatchPairs), haskey(m.PacketsMap, unbox(f.Attr, *MatchFieldAttribute).MatchPairs[k].Value)))
 
+// One level of inline nesting, lifted to the caller: the references written inside an inline object that a
+// field declares directly. Deeper levels are the same clause of the recursive activation over that inline
+// object's own fields (every inline field list is the `fields` argument of one activation).
+//@ pred inlineResolved(m *BinaryModel, f *Field) := typeis(f.Attr, *ObjectFieldAttribute) && unbox(f.Attr, *ObjectFieldAttribute).IsIner && unbox(f.Attr, *ObjectFieldAttribute).RefPacket != nil ==> forall(j, 0, len(unbox(f.Attr, *ObjectFieldAttribute).RefPacket.Fields), resolved(m, unbox(f.Attr, *ObjectFieldAttribute).RefPacket.Fields[j]))
+
 //@ func (*BinaryModel).resolveFields
 //@   ensures m.PacketsMap == old(m.PacketsMap) && len(m.Packets) == old(len(m.Packets)) && forall(q, 0, len(m.Packets), m.Packets[q] == old(m.Packets[q]))
 //@   loop 0 invariant m.PacketsMap == old(m.PacketsMap) && len(m.Packets) == old(len(m.Packets)) && forall(q, 0, len(m.Packets), m.Packets[q] == old(m.Packets[q]))
 //@   loop 1 invariant m.PacketsMap == old(m.PacketsMap) && len(m.Packets) == old(len(m.Packets)) && forall(q, 0, len(m.Packets), m.Packets[q] == old(m.Packets[q]))
 //@   ensures [C12:D6-resolved-or-reported] len(m.SyntaxErrors) >= old(len(m.SyntaxErrors)) && (len(m.SyntaxErrors) == old(len(m.SyntaxErrors)) ==> forall(i, 0, len(fields), resolved(m, fields[i])))
 //@   loop 0 invariant len(m.SyntaxErrors) >= old(len(m.SyntaxErrors))
+//@   ensures [C12:D6-inline-resolved-or-reported] len(m.SyntaxErrors) == old(len(m.SyntaxErrors)) ==> forall(i, 0, len(fields), inlineResolved(m, fields[i]))
+//@   loop 0 invariant len(m.SyntaxErrors) == old(len(m.SyntaxErrors)) ==> forall(i, 0, rangeindex + 1, inlineResolved(m, fields[i]))
 //@   loop 0 invariant len(m.SyntaxErrors) == old(len(m.SyntaxErrors)) ==> forall(i, 0, rangeindex + 1, typeis(fields[i].Attr, *ObjectFieldAttribute) ==> unbox(fields[i].Attr, *ObjectFieldAttribute).RefPacket != nil)
 //@   loop 0 invariant len(m.SyntaxErrors) == old(len(m.SyntaxErrors)) ==> forall(i, 0, rangeindex + 1, typeis(fields[i].Attr, *MatchFieldAttribute) ==> forall(k, 0, len(unbox(fields[i].Attr, *MatchFieldAttribute).MatchPairs), haskey(m.PacketsMap, unbox(fields[i].Attr, *MatchFieldAttribute).MatchPairs[k].Value)))
 //@   loop 1 invariant len(m.SyntaxErrors) >= entry(len(m.SyntaxErrors)) && (len(m.SyntaxErrors) == entry(len(m.SyntaxErrors)) ==> forall(k, 0, rangeindex + 1, haskey(m.PacketsMap, mf.MatchPairs[k].Value)))
